@@ -238,6 +238,106 @@ def _prefix_to(prog, Q, E, target, reps, Qc):
 
 # ---------------------------------------------------------------------------------------------------
 
+# ---------------------------------------------------------------------------------------------------
+# cost of the non-regex code: for EVERY string over the family's alphabet up to length n the parser / validator executes at
+# most BUDGET(len) steps (a step = an executed statement, a call, or one comprehension iteration of productmd code; a
+# regular-expression match is one step here - its own cost is what the ambiguity analysis above bounds).
+
+def budget(k):
+    """declared bound, linear in the input length (the maxima measured on the pinned tree, 9-84 steps, are below half of it)"""
+    return 200 + 40 * k
+
+
+def _targets():
+    import productmd.common as C
+    import productmd.composeinfo as CI
+    import productmd.images as IM
+    import productmd.treeinfo as TI
+    from productmd.modules import Modules
+
+    def field_validator(make, attr):
+        """the object and the list of its validators for the field are prepared outside the measured region"""
+        o = make()
+        names = sorted(n for n in dir(type(o)) if n.startswith("_validate_" + attr))
+
+        def run(s):
+            setattr(o, attr, s)
+            for name in names:
+                getattr(o, name)()
+        return run
+
+    def compose():
+        return CI.ComposeInfo().compose
+
+    def release():
+        return CI.ComposeInfo().release
+
+    def variant():
+        v = CI.Variant(CI.ComposeInfo())
+        v.uid = "x"
+        return v
+
+    def image():
+        return IM.Image(IM.Images())
+
+    def header():
+        return CI.ComposeInfo().header
+
+    def tree_release():
+        return TI.TreeInfo().release
+    return {
+        # name: (callable of one string, alphabet of the adversarial family)
+        "parse_release_id": (C.parse_release_id, "aF1-@."),
+        "create_release_id": (lambda s: C.create_release_id(s, s, "ga", s, s, "ga"), "aF1-."),
+        "is_valid_release_short": (C.is_valid_release_short, "aF1-"),
+        "is_valid_release_version": (C.is_valid_release_version, "a1.-"),
+        "is_valid_release_type": (C.is_valid_release_type, "ga-z"),
+        "parse_nvra": (C.parse_nvra, "a1-:./"),
+        "split_version": (C.split_version, "1a."),
+        "get_major_version": (C.get_major_version, "1a."),
+        "get_minor_version": (C.get_minor_version, "1a."),
+        "modules.parse_uid": (Modules.parse_uid, "a1:/"),
+        "get_date_type_respin": (CI.get_date_type_respin, "a1-.nt"),
+        "verify_label": (CI.verify_label, "RCBeta-1."),
+        "compose.id": (field_validator(compose, "id"), "a1-.nt"),
+        "compose.date": (field_validator(compose, "date"), "12a"),
+        "compose.label": (field_validator(compose, "label"), "RCBeta-1."),
+        "release.short": (field_validator(release, "short"), "aF1-"),
+        "release.version": (field_validator(release, "version"), "a1.-"),
+        "release.type": (field_validator(release, "type"), "ga-z"),
+        "variant.id": (field_validator(variant, "id"), "aZ1-"),
+        "image.implant_md5": (field_validator(image, "implant_md5"), "af09Z"),
+        "header.version": (field_validator(header, "version"), "12.a"),
+        "treeinfo.release.version": (field_validator(tree_release, "version"), "12.a"),
+    }
+
+
+def cost_bound(sym, target, n):
+    fn, alphabet = _targets()[target]
+    s = sym.str("s", n, alphabet=[(ord(c), ord(c)) for c in alphabet])
+    sym.step_limit(budget(n))          # nothing of length <= n may cost more than the bound for length n ...
+    before = sym.steps()
+    try:
+        fn(s)
+    except (ValueError, TypeError):
+        pass
+    cost = sym.steps() - before
+    sym.step_limit(None)
+    sym.cover("returned")
+    # ... and each input stays below the bound for its own length
+    sym.check("cost-within-the-declared-bound", sym.or_(*[sym.and_(len(s) == k, cost <= budget(k)) for k in range(n + 1)]))
+    sym.note_max("max-steps-seen", cost)
+
+
+def jobs(tier, seed):
+    big = tier == "thorough"
+    out = []
+    for t in sorted(_targets()):
+        for n in ((6, 12, 18) if big else (6, 12)):
+            out.append({"harness": "cost_bound", "params": {"target": t, "n": n}, "validate_every": 50})
+    return out
+
+
 def run(tier, seed):
     sys.path.insert(0, HERE)
     from psx import runner, rx
@@ -315,7 +415,27 @@ def run(tier, seed):
             "non-regex parsing code (split/rsplit/count/endswith based) is linear by construction of those builtins and is not analysed here",
         ],
     }
-    rc = runner.finish(PROPERTY, tier, seed, [], meta, time.time() - t0, extra_coverage=extra, extra_errors=errors, extra_violations=violations)
+    # ---- cost bounds of the non-regex code (ordinary psx jobs)
+    st, st_errors = runner.engine_selftests({}, tier, seed)
+    errors.extend(st_errors)
+    only = os.environ.get("PSX_C19_JOBS")
+    cost_jobs = jobs(tier, seed)
+    if only:
+        cost_jobs = [cost_jobs[int(i)] for i in only.split(",")]
+    results, pool_extra = runner.run_pool(PROPERTY, "C19", tier, seed, cost_jobs)
+    extra.update(pool_extra)
+    extra["engine_selftests"] = st
+    extra["pattern_analysis"] = {"queries": nq + len(infos), "patterns": len(infos)}
+    extra["cost_bound"] = {"budget": "200 + 40*len steps", "targets": sorted(_targets()),
+                           "max_steps_seen": dict(("%s/n=%d" % (r["params"]["target"], r["params"]["n"]), r.get("notes", {}).get("max-steps-seen"))
+                                                  for r in results if "params" in r and "crash" not in r)}
+    meta["expected_covers"] = {"cost_bound": ["returned"]}
+    meta["assumptions"] = meta["assumptions"][:2] + [
+        "cost bound of the non-regex code: for every string over the target's family alphabet up to length 6 / 12 (thorough: also 18) the parser or validator executes at most "
+        "200 + 40*len steps (executed statements, calls and comprehension iterations of productmd code under the interpreter; a regex match counts as one step, its own "
+        "cost being bounded by the ambiguity analysis); longer inputs and other alphabets are outside the claim; a counterexample is replayed natively with a line/call/C-call tracer",
+    ]
+    rc = runner.finish(PROPERTY, tier, seed, results, meta, time.time() - t0, extra_coverage=extra, extra_errors=errors, extra_violations=violations)
     for kid, kv in sorted(known_hits.items()):
         print("KNOWN-FINDING: property=%s %s [%s] replay=%s" % (PROPERTY, kv["what"], kid, kv["replay"]))
     for i in infos:
